@@ -68,6 +68,17 @@ def gen(ctx):
                 size = 300
             cases.append(Case(size, driver=driver, workers=rng.choice([1, 4]), bs=bs,
                               plan=[("clamp", 4, cap, "copy_file_range", 0, "{dst}")], label="kernel request cap"))
+    # MANY blocks in one range: more block jobs than any queue or batch constant in the drivers (the pool's queue holds
+    # 128), with and without a partial tail block
+    for driver in ("parfile", "parblock"):
+        for (bs, k) in [(1, 129), (1, 300), (3, 257), (7, 130), (512, 129), (4096, 131), (rng.choice([2, 5, 64]), rng.randrange(129, 700))]:
+            if quick and driver == "parfile" and rng.random() < 0.6:
+                continue
+            size = k * bs + rng.choice([0, rng.randrange(0, bs)])
+            cases.append(Case(size, driver=driver, workers=rng.choice([1, 2, 4]), bs=bs, reflink="never",
+                              prior=rng.choice(["absent", "longer"]), label="more than 128 blocks in one range"))
+        cases.append(Case(900 * B, data=[(0, 200 * B), (300 * B, 300 * B + 150 * B + 77), (700 * B, 900 * B)], driver=driver,
+                          workers=rng.choice([2, 4]), bs=B, reflink="never", label="more than 128 blocks in each of several extents"))
     # layouts whose extent map and readable content disagree for a while: a region reserved with fallocate and then written
     # through the page cache is still flagged `unwritten` by FIEMAP until writeback, yet it is data like any other
     MiB = 1 << 20
